@@ -288,38 +288,37 @@ def rule_matcher(ctx):
     fr = prog.find("BodyReader::for_response")
     if not ctx.require(fr, R, "anchor", "BodyReader::for_response (body-mode decision)"):
         return
-    # the function (reachable from for_response) that performs the transfer-encoding lookup
-    cands = []
-    for b in prog.nonderived_bodies():
-        for bb, t in b.calls():
-            pass
-    hd = None
-    for b in prog.nonderived_bodies():
-        txt = repr([s for blk in b.blocks for s in blk["stmts"]])
-        if repr(list(b"transfer-encoding"))[1:-1] in txt and any(
-                (callee_path(t) or "").endswith("Iterator::any") for _, t in b.calls()):
-            hd = b
-    if not ctx.require(hd, R, "anchor", "function that looks up transfer-encoding and calls Iterator::any"):
+    # the code (for_response, its helpers and their closures) that derives the `chunked` atom from the transfer-encoding value
+    from .panics import reachable_from
+    reach = [b for b in reachable_from(prog, [fr]) if not b.is_derived]
+    reach_ids = {b.id for b in reach}
+    for b in prog.nonderived_bodies():                 # closures of reachable functions
+        if b.kind == "Closure" and b.closure_root in reach_ids and b.id not in reach_ids:
+            reach.append(b)
+            reach_ids.add(b.id)
+    more = [b for b in reachable_from(prog, reach) if not b.is_derived and b.id not in reach_ids]
+    reach += more
+    lit_te = repr(list(b"transfer-encoding"))[1:-1]
+    looks_up = [b for b in reach if lit_te in repr([s_ for blk in b.blocks for s_ in blk["stmts"]]) or lit_te in repr([blk["term"] for blk in b.blocks])]
+    if not ctx.require(looks_up, R, "anchor", "code reachable from the body-mode decision that looks up transfer-encoding"):
         return
-    calls = [short(callee_path(t) or "") for _, t in hd.calls()]
-    has_split = any(c.endswith("<impl str>::split") for c in calls)
-    split_comma = False
-    for _, t in hd.calls():
-        if short(callee_path(t) or "").endswith("<impl str>::split"):
-            a = t["args"][1]
-            split_comma = a.get("int") == str(ord(","))
-    ctx.check(has_split and split_comma, R, "split-comma", "transfer-encoding value is split at ','", loc=body_loc(hd))
-    clos = prog.closures_of(hd)
-    trim = any(any(short(callee_path(t) or "").endswith("<impl str>::trim") for _, t in c.calls()) for c in clos)
-    ctx.check(trim, R, "trim", "each element is trimmed", loc=body_loc(hd))
-    cmpc = False
-    for c in clos:
-        for _, t in c.calls():
+    hd = looks_up[0]
+    split_comma = trim = cmpc = anyq = False
+    for b in reach:
+        for _, t in b.calls():
             p = short(callee_path(t) or "")
-            if p.endswith("compare_lowercase_ascii"):
-                txt = repr(c.raw)
-                if repr(list(b"chunked"))[1:-1] in txt:
-                    cmpc = True
+            if p.endswith("<impl str>::split") and t["args"][1].get("int") == str(ord(",")):
+                split_comma = True
+            if p.endswith("<impl str>::trim"):
+                trim = True
+            if p.endswith("Iterator::any") or p.endswith("Iterator::find") or p.endswith("Iterator::position"):
+                anyq = True
+            if p.endswith("compare_lowercase_ascii") and repr(list(b"chunked"))[1:-1] in repr(b.raw):
+                cmpc = True
+        if b.loop_heads() and any(short(callee_path(t) or "").endswith("compare_lowercase_ascii") for _, t in b.calls()):
+            anyq = True            # the existential written as a loop
+    ctx.check(split_comma and anyq, R, "split-comma", "transfer-encoding value is split at ',' and the elements are searched (any)", loc=body_loc(hd))
+    ctx.check(trim, R, "trim", "each element is trimmed", loc=body_loc(hd))
     ctx.check(cmpc, R, "compare-chunked", "elements are compared case-insensitively with the literal \"chunked\"",
               loc=body_loc(hd))
     # the comparer itself: length test + per-char ascii-lowercase equality
@@ -327,7 +326,7 @@ def rule_matcher(ctx):
     if ctx.require(cl, R, "comparer", "compare_lowercase_ascii"):
         from .panics import reachable_from
         cc = [short(callee_path(t) or "") for b_ in reachable_from(prog, [cl]) for _, t in b_.calls()]
-        ctx.check(any(x.endswith("to_ascii_lowercase") for x in cc) and any(x.endswith("<impl str>::len") for x in cc),
+        ctx.check(any(x.endswith("to_ascii_lowercase") for x in cc) and any(x.endswith("<impl str>::len") or x.endswith("<impl [T]>::len") for x in cc),
                   R, "comparer-structure", "comparer checks equal length and lower-cases each char", loc=body_loc(cl))
 
 
